@@ -77,6 +77,12 @@ let handle (x : sexp) : Stdlib.String.t =
       (match best_layout evs_dummy big_fuel big_fuel (boolv smart) (zint w) (zint rw) (doc_of d) with
        | None -> "FUEL"
        | Some out -> color_out out tbl rs)
+  | L [A "threads"; A prog; n; L sch] ->
+      let step = if prog = "new" then step_new else step_old in
+      let rec rep k = if k = 0 then [] else t0 :: rep (k - 1) in
+      let (_, ts) = run step (List.map natv sch) (sh0, rep (int_of_string (atom n))) in
+      String.concat " " (List.map (fun t -> match t.t_out with
+        | None -> "-" | Some Printed -> "P" | Some ReprFallback -> "R" | Some KeyErr -> "K") ts)
   | L [A "dcshow"; A kind; r; a; b; c; d] ->
       let f = if kind = "dc" then dc_display else attrs_display in
       if f (boolv r) (boolv a) (boolv b) (boolv c) (boolv d) then "1" else "0"
